@@ -131,12 +131,16 @@ def wrapper_scenario(rng):
             ops.append([rng.choice(['recv', 'read']), n])
     cipher_in = wire.CFB8(secret, secret).update(plain_in)
     seg = rng.random() < 0.8
+    n_sends = sum(1 for o in ops if o[0] == 'send')
+    eagain = [rng.randrange(n_sends)] if n_sends and rng.random() < 0.25 \
+        else []
     return {
         'kind': 'wrapper', 'secret_hex': secret.hex(),
         'plain_in_hex': plain_in.hex(), 'ops': ops,
         'server': {'conns': [{'raw': True, 'send_hex': cipher_in.hex()}]},
         'net': {'latency_us': 100, 'segment': seg, 'short_read': seg,
-                'max_seg': rng.choice([1, 3, 50])},
+                'max_seg': rng.choice([1, 3, 50]),
+                'eagain_sends': eagain},
         'sched': {'granularity': 'io', 'max_steps': 200000},
         'rand_seed': rng.randrange(2**32),
     }
@@ -513,7 +517,13 @@ def execute_wrapper(scenario, tape):
                     w.sim.yield_point(60)
                     if op[0] == 'send':
                         data = bytes.fromhex(op[1])
-                        ws.send(data)
+                        try:
+                            ws.send(data)
+                        except BlockingIOError:
+                            # the send was NOT acknowledged: a sane caller
+                            # stops writing to this stream
+                            st['send_failed'] = True
+                            break
                         st['sent'] += data
                     elif op[0] == 'recv':
                         st['got'] += ws.recv(op[1])
